@@ -18,6 +18,7 @@ import Snmp.Model.Udp
 import Snmp.Model.Trap
 import Snmp.Model.Disco
 import Snmp.Model.Conc
+import Snmp.Model.Ber
 open Lean Snmp
 
 namespace Driver
@@ -466,6 +467,68 @@ def concRun (j : Json) : Except String Json := do
     | _ => Json.null
   pure (Json.mkObj [("log", toJson log), ("finished", toJson fin)])
 
+/-! ### BER -/
+def berErrToJson (e : Ber.BErr) : Json :=
+  let k := match e with
+    | .index => "index" | .notImplemented => "notImplemented" | .x690 => "x690" | .unexpectedType => "unexpectedType"
+    | .value => "value" | .stopIteration => "stopIteration" | .type => "type" | .emptyMessage => "emptyMessage"
+    | .outOfFuel => "outOfFuel"
+  toJson (#[toJson "error", toJson k] : Array Json)
+
+partial def treeToJson : Ber.Tree → Json
+  | .int c v => toJson (#[toJson "int", toJson c, toJson v] : Array Json)
+  | .str c b => toJson (#[toJson "str", toJson c, toJson (toHex b)] : Array Json)
+  | .null => toJson (#[toJson "null"] : Array Json)
+  | .oid o => toJson (#[toJson "oid", toJson o] : Array Json)
+  | .marker c => toJson (#[toJson "marker", toJson c] : Array Json)
+  | .seq c items => toJson (#[toJson "seq", toJson c, toJson (items.map treeToJson)] : Array Json)
+  | .raw c t b => toJson (#[toJson "raw", toJson c, toJson t, toJson (toHex b)] : Array Json)
+
+def optBytesJ : Option Bytes → Json
+  | some b => toJson (toHex b)
+  | none => Json.null
+
+def berOp (op : String) (j : Json) : Except String Json := do
+  match op with
+  | "ber.len.enc" => pure (toJson (toHex (Ber.encodeLength (← getNat j "n"))))
+  | "ber.len.dec" =>
+    match Ber.decodeLength (← bytesOfJson (← j.getObjVal? "data")) (← getNat j "index") with
+    | .ok (.definite l o) => pure (toJson (#[toJson l, toJson o] : Array Json))
+    | .ok .indefinite => pure (toJson (#[toJson (-1 : Int), toJson (-1 : Int)] : Array Json))
+    | .error e => pure (berErrToJson e)
+  | "ber.slice" =>
+    match Ber.getValueSlice (← bytesOfJson (← j.getObjVal? "data")) (← getNat j "index") with
+    | .ok (sl, nxt) => pure (toJson (#[toJson sl.start, toJson sl.stop, toJson nxt] : Array Json))
+    | .error e => pure (berErrToJson e)
+  | "ber.int.enc" => pure (toJson (toHex (Ber.intEncode (← getInt j "v"))))
+  | "ber.int.dec" => pure (toJson (Ber.intDecode (← j.getObjValAs? Bool "signed") (← bytesOfJson (← j.getObjVal? "data"))))
+  | "ber.oid.enc" => pure (optBytesJ (Ber.oidEncode (← oidOfJson (← j.getObjVal? "oid"))))
+  | "ber.oid.dec" =>
+    match Ber.oidDecode (← bytesOfJson (← j.getObjVal? "data")) with
+    | .ok o => pure (toJson o)
+    | .error e => pure (berErrToJson e)
+  | "ber.val.enc" => pure (optBytesJ (Ber.encodeVal (← valOfJson (← j.getObjVal? "val"))))
+  | "ber.tree" =>
+    match Ber.decodeTree (← bytesOfJson (← j.getObjVal? "data")) (← getNat j "fuel") (← getNat j "depth") with
+    | .ok t => pure (treeToJson t)
+    | .error e => pure (berErrToJson e)
+  | "ber.pdu.enc" =>
+    pure (optBytesJ (Ber.encodePdu (← j.getObjValAs? String "cls") (← getInt j "rid") (← getInt j "a") (← getInt j "b")
+      (← vbsOfJson (← j.getObjVal? "vbs"))))
+  | "ber.msg.community" =>
+    pure (toJson (toHex (Ber.encodeCommunityMsg (← getInt j "version") (← bytesOfJson (← j.getObjVal? "community"))
+      (← bytesOfJson (← j.getObjVal? "pdu")))))
+  | "ber.msg.v3" =>
+    let hdr := Ber.encodeHeader (← getInt j "msg_id") (← getInt j "max_size") (← getNat j "flags") (← getInt j "sec_model")
+    pure (toJson (toHex (Ber.encodeV3Msg hdr (← bytesOfJson (← j.getObjVal? "sec_params")) (← bytesOfJson (← j.getObjVal? "msg_data")))))
+  | "ber.usm.enc" =>
+    pure (toJson (toHex (Ber.encodeUsmParams (← bytesOfJson (← j.getObjVal? "engine_id")) (← getInt j "boots") (← getInt j "time")
+      (← bytesOfJson (← j.getObjVal? "user")) (← bytesOfJson (← j.getObjVal? "auth")) (← bytesOfJson (← j.getObjVal? "priv")))))
+  | "ber.scoped.enc" =>
+    pure (toJson (toHex (Ber.encodeScoped (← bytesOfJson (← j.getObjVal? "engine_id")) (← bytesOfJson (← j.getObjVal? "name"))
+      (← bytesOfJson (← j.getObjVal? "pdu")))))
+  | _ => throw s!"bad-op {op}"
+
 def handle (j : Json) : Except String Json := do
   let op ← j.getObjValAs? String "op"
   match op with
@@ -487,7 +550,7 @@ def handle (j : Json) : Except String Json := do
   | "udp.run" => udpRun j
   | "tablify" => tablifyOp j
   | "table.run" => tableRun j
-  | _ => throw s!"bad-op {op}"
+  | _ => if op.startsWith "ber." then berOp op j else throw s!"bad-op {op}"
 
 end Driver
 
